@@ -138,6 +138,31 @@ def enrichCanon (cfg : Hdrs) (canon : String) : String :=
     m ++ "," ++ u ++ ",h=" ++ r.1 ++ ",hd=" ++ "|".intercalate (r.2.map fun x => x.1 ++ ":" ++ x.2) ++ "," ++ b
   | _ => canon
 
+/-! ### raw format: the `headers` option on the request of a plain frame (round 4)
+
+The same rule on the structured request `FReq` that `frameReq` reads: this is what the Spec expects for a plain frame
+(`frameCanonCfg`); `enrichCanon` above is the same rule on the canonical TEXT and remains for the frames whose reading comes
+from the library table.  Theorems: `C07_raw_option_keeps_request`, `C07_raw_frame_headers_win`, `C07_raw_frame_host_wins`,
+`C07_raw_option_fills`, `C07_raw_option_host`. -/
+
+def insertHdrF (kv : Bytes × List Bytes) : List (Bytes × List Bytes) → List (Bytes × List Bytes)
+  | [] => [kv]
+  | x :: r => if bytesLt kv.1 x.1 then kv :: x :: r else x :: insertHdrF kv r
+
+/-- one entry of the option: ignored when the request has that (canonical) key; `Host` becomes the request's Host only when
+the frame named none; any other key is added with the option's value -/
+def enrichStep (r : FReq) (kv : Bytes × Bytes) : FReq :=
+  let key := canonKey kv.1
+  if r.hdrs.any (fun x => x.1 == key) then r
+  else if key == hostKey then (if r.host.isEmpty then { r with host := kv.2 } else r)
+  else { r with hdrs := insertHdrF (key, [kv.2]) r.hdrs }
+
+/-- `EnrichRequestWithHeaders(req, decodedConfigHeaders)` on the request of a frame -/
+def enrichF (cfg : Hdrs) (r : FReq) : FReq := cfg.foldl enrichStep r
+
+/-- canonical text of the request a plain frame denotes under the `headers` option `cfg` -/
+def frameCanonCfg (cfg : Hdrs) (frame : Bytes) : Option String := (frameReq frame).map fun r => freqCore (enrichF cfg r)
+
 /-! ### verdict on an observation -/
 
 def fieldNames : List String := ["m", "u", "h", "hd", "b", "t"]
